@@ -196,6 +196,8 @@ func checkC16(c *Ctx) {
 	c.limitSweep("query", batch)
 	c.limitSweep("query", denseDocs(c.R, c.Pick(1500, 15000)))
 	c.builtinFlagSweep(ss)
+	c.limitHistories("query", qs)
+	c.limitHistories("schema", ss)
 	c.bigInputs(true)
 	c.Ev.Rule = "every document × every limit 0..tokens+2 (repository corpus, token-level mutations of it, every sequence of ≤N tokens over the 16 query token classes, dense documents whose byte count equals their token count), compared with the unlimited parse and with the Lean model; sources with the BuiltIn flag set (definitions and extensions) through ParseSchemas[WithLimit] under no limit, 0, the token count and beyond; hostile families of 16 Ki–4 Mi repetitions under limits 1, 16, 1024 (time must not grow with the input). Non-trivial: ≥3 tokens; distinct by unlimited observation."
 }
